@@ -347,7 +347,7 @@ def replay_files(f):
 def main(tier, seed):
     setup()
     workers = max(2, min(12, common.NPROC - 2))
-    n_ex = 500 if tier == "quick" else 4000
+    n_ex = 450 if tier == "quick" else 3000
     return c17run.run(PROP, "exploration", RULE, tier, seed, make_strategy, case, confirm, replay_files, workers, n_ex,
                       min_cases=workers * n_ex // 3,
                       pre=lambda ev, root: ev.extra.update({"hang_probe": "exp2cxx does not return (8 s) on two schemas with same-named supertypes: shape excluded"
